@@ -922,10 +922,14 @@ class SqlalchemyRender:
             return sql_query, None
 
 
-def render_literal_string(value, backslash_escapes):
+def render_literal_string(value, backslash_escapes, dialect_name=None):
     value = str(value).replace("'", "''")
     if backslash_escapes:
         value = value.replace('\\', '\\\\')
+    if dialect_name == 'mssql' and not value.isascii():
+        # a constant without N is varchar: it is converted to the code page of the database and loses the
+        # characters that are not in it (sqlalchemy's own literal processor makes the same choice)
+        return "N'{}'".format(value)
     return "'{}'".format(value)
 
 
@@ -938,7 +942,7 @@ def render_dml_query(statement, dialect, backslash_escapes=None):
         def render_literal_value(self, value, type_):
 
             if isinstance(value, (str, dt.date, dt.datetime, dt.timedelta)):
-                return render_literal_string(value, backslash_escapes)
+                return render_literal_string(value, backslash_escapes, dialect.name)
 
             return super(LiteralCompiler, self).render_literal_value(value, type_)
 
@@ -953,7 +957,7 @@ def render_ddl_query(statement, dialect, backslash_escapes=None):
 
         def render_literal_value(self, value, type_):
             if isinstance(value, (str, dt.date, dt.datetime, dt.timedelta)):
-                return render_literal_string(value, backslash_escapes)
+                return render_literal_string(value, backslash_escapes, dialect.name)
 
             return super(LiteralCompiler, self).render_literal_value(value, type_)
 
